@@ -132,7 +132,7 @@ theorem in_sequence_fin_answered (v : VSock) (hdr : Header) (hty : hdr.htype = T
 soon as `last_sent_seq_nr` stands on that segment (`snd_una + len - 1`: everything queued is on the wire, or the
 queue is empty) `maybe_send_fin`'s guard `fin - last_sent_seq_nr = 1` holds. Before the D24 repair the FIN was
 numbered from `seq_nr`, which a popped MTU probe leaves one further ahead: the guard was then never true. -/
-theorem answering_fin_is_sendable (una len ls : Nat) (hu : una < 65536) (hlen : len ≤ 16000)
+theorem answering_fin_is_sendable (una len ls : Nat) (hu : una < 65536) (hlen : len ≤ 16384)
     (hls : ls < 65536) (hat : seqSub ls una = (len : Int) - 1) :
     seqSub (wadd una (len % 65536)) ls = 1 := by
   open UtpVerif.Props.C10Inv in
